@@ -26,6 +26,32 @@ def own_reports(rng):
     return out
 
 
+AUTO, AUTO_DOC = 9, 12
+
+
+def model_plan(chan, inp, fmt, engine_ok=True, own=()):
+    """the decision function of Model/Cli.v (extracted): exit status, what stdout carries, whether a diagnostic
+    is due.  chan: file | stdin; inp: missing | notafile | empty | content; own: [(name code, 'json'|'csv')]"""
+    files = []
+    for i, (nm, fm) in enumerate(own):
+        files += [nm, 0 if fm == "json" else 1, 100 + i]
+    files += [AUTO, 0, AUTO_DOC, AUTO, 1, AUTO_DOC]
+    eng = [1, len(own) + 2] + files if engine_ok else [0]
+    line = ["plan", 0 if chan == "file" else 1, {"missing": 0, "notafile": 1, "empty": 2, "content": 3}[inp], 0 if fmt == "json" else 1, AUTO] + eng
+    ex, out, diag = common.run_driver("miscdriver", [" ".join(map(str, line))])[0].split()
+    return int(ex), out, diag == "1"
+
+
+def own_list(tail):
+    """(name code, format) of every file the own reports of a project produce"""
+    import re
+    out = []
+    for i, m in enumerate(re.finditer(r'taskreport own\d+ "[^"]*" \{ formats ([a-z, ]+) columns', tail)):
+        for fm in m.group(1).split(","):
+            out.append((20 + i, fm.strip()))
+    return out
+
+
 def expected(ap, obs, fmt):
     sc = obs["scenarios"][0]
     rows = []
@@ -70,8 +96,12 @@ def run(ctx):
                     stats[f"{fmt}/{chan}"] += 1
                     outs[(fmt, chan)] = r
                     where = {"format": fmt, "channel": chan, "own_reports": tail, "text": text}
-                    if r["rc"] != 0:
-                        bad.append({"what": "a valid project did not exit 0", "rc": r["rc"], "stderr": r["err"].decode(errors="replace")[-300:], **where})
+                    m_exit, m_out, m_diag = model_plan("file" if chan == "file" else "stdin", "content", fmt, True, own_list(tail))
+                    if r["rc"] != m_exit:
+                        bad.append({"what": "a valid project did not exit 0", "rc": r["rc"], "model_exit": m_exit, "stderr": r["err"].decode(errors="replace")[-300:], **where})
+                        continue
+                    if m_out != ("S%d" % AUTO_DOC if fmt == "json" else str(AUTO_DOC)):
+                        bad.append({"what": "Model/Cli.v does not select the auto report for stdout (model/harness mismatch)", "model_stdout": m_out, **where})
                         continue
                     want = expected(ap, ref["obs"], fmt)
                     if fmt == "json":
@@ -100,10 +130,16 @@ def run(ctx):
         box.put("unsched.tjp", b'project p "P" 2025-01-06 +1w { timezone "Etc/UTC" }\nresource r "R" { leaves annual 2025-01-01 - 2026-01-01 }\ntask a "A" { effort 2h allocate r }\n')
         import os
         os.makedirs(box.cwd + "/adir.tjp", exist_ok=True)
-        for args, stdin, want_rc, label in ((["report", "missing.tjp"], None, 1, "missing file"), (["report", "adir.tjp"], None, 1, "directory"),
-                                            (["report", "empty.tjp"], None, 1, "empty file"), (["report"], b"", 1, "empty stdin"),
-                                            (["report", "-"], b"   \n", 1, "blank stdin"), (["report", "syntax.tjp"], None, 2, "syntax error"),
-                                            (["report", "--csv", "syntax.tjp"], None, 2, "syntax error csv"), (["report", "unsched.tjp"], None, 0, "unschedulable task")):
+        # the expected exit status / stdout / diagnostic of every input class is the extracted decision function's
+        for args, stdin, cls, label in ((["report", "missing.tjp"], None, ("file", "missing", "json", True), "missing file"),
+                                        (["report", "adir.tjp"], None, ("file", "notafile", "json", True), "directory"),
+                                        (["report", "empty.tjp"], None, ("file", "empty", "json", True), "empty file"),
+                                        (["report"], b"", ("stdin", "empty", "json", True), "empty stdin"),
+                                        (["report", "-"], b"   \n", ("stdin", "empty", "json", True), "blank stdin"),
+                                        (["report", "syntax.tjp"], None, ("file", "content", "json", False), "syntax error"),
+                                        (["report", "--csv", "syntax.tjp"], None, ("file", "content", "csv", False), "syntax error csv"),
+                                        (["report", "unsched.tjp"], None, ("file", "content", "json", True), "unschedulable task")):
+            want_rc, m_out, m_diag = model_plan(*cls)
             r = box.run(args, stdin=stdin)
             stats["badinput:" + label] += 1
             if r["rc"] != want_rc:
@@ -129,4 +165,4 @@ def run(ctx):
            "rule": "the real entry point (scriptplan.cli.plan:main) as a subprocess with private cwd and TMPDIR: generated projects x {no, 1-3 own reports in json/csv/both with names sorting before and after the auto report} x {file, stdin, stdin '-'} x {json, csv} x LF/CRLF x file names with/without .tjp; stdout compared with the schedule obtained through the API; classes of bad input (missing, directory, empty file, empty/blank stdin, syntax error, unschedulable task)",
            "samples": [{"args": ["report", "p.tjp"], "expect": "exit 0, JSON {data, columns=[id,start,end], report_id=sha256(input)}"}]}
     common.finish(ctx, "proof", cov, violations,
-                  ["partial: click, the OS and exit-status delivery are runtime; the Coq model covers the decision table of report() only"])
+                  ["partial: click, the OS and exit-status delivery are runtime; the Coq model covers the decision table of report() only - the expected exit status, stdout selection and diagnostics of every run are taken from the extracted Model/Cli.v (plan_report)"])
